@@ -31,6 +31,7 @@ func init() {
 				return
 			}
 			// raisers by effect
+			preds := dataFilterPredicates(p)
 			raisers := map[*types.Func]bool{}
 			for _, f := range p.FnList {
 				if f.Short != "manager" || f.Body() == nil || f.Lit != nil {
@@ -52,6 +53,10 @@ func init() {
 							}
 						case *ast.Ident:
 							if s.Name == "FeatureFilterData" {
+								testsData = true
+							}
+						case *ast.CallExpr:
+							if fn := p.Callee(f.Pkg, s); fn != nil && preds[fn.Origin()] {
 								testsData = true
 							}
 						case *ast.AssignStmt:
@@ -98,6 +103,10 @@ func init() {
 							}
 						case *ast.Ident:
 							if s.Name == "FeatureFilterData" {
+								testsData = true
+							}
+						case *ast.CallExpr:
+							if fn := p.Callee(f.Pkg, s); fn != nil && preds[fn.Origin()] {
 								testsData = true
 							}
 						case *ast.AssignStmt:
@@ -176,4 +185,42 @@ func init() {
 			r.Note("%s: %d functions raise data tags by effect", rule, len(raisers))
 			r.Floor(rule, 3, n)
 		})
+}
+
+// dataFilterPredicates: functions of package manager that answer with a boolean and read FeatureFilterData — the test
+// "this tag searches stream data" extracted into a helper (`func (t *tag) filtersStreamData() bool`).
+func dataFilterPredicates(p *Prog) map[*types.Func]bool {
+	out := map[*types.Func]bool{}
+	for _, g := range p.FnList {
+		if g.Short != "manager" || g.Body() == nil || g.Lit != nil || g.Decl == nil {
+			continue
+		}
+		res := g.Decl.Type.Results
+		if res == nil || len(res.List) != 1 {
+			continue
+		}
+		if t := g.Pkg.TypesInfo.TypeOf(res.List[0].Type); t == nil || types.TypeString(t, nil) != "bool" {
+			continue
+		}
+		mentions := false
+		ast.Inspect(g.Body(), func(y ast.Node) bool {
+			switch s := y.(type) {
+			case *ast.SelectorExpr:
+				if s.Sel.Name == "FeatureFilterData" {
+					mentions = true
+				}
+			case *ast.Ident:
+				if s.Name == "FeatureFilterData" {
+					mentions = true
+				}
+			}
+			return !mentions
+		})
+		if mentions {
+			if fo, ok := g.Pkg.TypesInfo.Defs[g.Decl.Name].(*types.Func); ok {
+				out[fo] = true
+			}
+		}
+	}
+	return out
 }
